@@ -87,6 +87,10 @@ func (e *FuncEnc) resolveClosure(v ssa.Value, depth int) *ssa.MakeClosure {
 		if len(e.inlineStack) > 0 {
 			site = e.inlineStack[0].site
 		}
+		if site.Block().Parent() != st.Block().Parent() && e.selfClosure != nil {
+			// verified on its own: the closure exists only after its literal
+			site = e.selfClosure
+		}
 		if site.Block().Parent() != st.Block().Parent() {
 			return nil
 		}
@@ -217,11 +221,12 @@ func (e *FuncEnc) inlineDAG(in ssa.Instruction, f *ssa.Function, bindings []ssa.
 		}
 		out.heaps[k] = e.define(k, srt, expr)
 	}
-	tr := fr.rets[len(fr.rets)-1].st.trace
-	for i := len(fr.rets) - 2; i >= 0; i-- {
-		tr = ite(fr.rets[i].reach, fr.rets[i].st.trace, tr)
+	var conds, trs []string
+	for _, r := range fr.rets {
+		conds = append(conds, r.reach)
+		trs = append(trs, r.st.trace)
 	}
-	out.trace = e.define("tr", "Trace", tr)
+	out.trace = e.mergeTraces(conds, trs)
 	e.cur = out
 	var rs []string
 	for _, r := range fr.rets {
@@ -400,4 +405,29 @@ func (c *confiner) cell(addr ssa.Value, depth int) bool {
 		}
 	}
 	return ok
+}
+
+// capturedAllocs: the variable cells a closure (and the closures parked in
+// cells it captures) can reach.
+func capturedAllocs(bindings []ssa.Value) map[*ssa.Alloc]bool {
+	out := map[*ssa.Alloc]bool{}
+	var visit func(v ssa.Value, d int)
+	visit = func(v ssa.Value, d int) {
+		al, ok := v.(*ssa.Alloc)
+		if !ok || out[al] || d > 4 {
+			return
+		}
+		out[al] = true
+		if st, ok := stableCell(al); ok {
+			if mc, ok := st.Val.(*ssa.MakeClosure); ok {
+				for _, b := range mc.Bindings {
+					visit(b, d+1)
+				}
+			}
+		}
+	}
+	for _, b := range bindings {
+		visit(b, 0)
+	}
+	return out
 }
